@@ -38,6 +38,7 @@ class X690Model:
         self.base = rt.get_class(rt.program.find_class("x690.types:X690Type"), interp)
         self.unknown = rt.get_class(rt.program.find_class("x690.types:UnknownType"), interp)
         self.registry = {}
+        self.decode_counts = {}
         self._build_registry(interp)
         H = rt.hooks
         H["x690.types:X690Type.__bytes__"] = self.h_bytes
@@ -219,6 +220,9 @@ class X690Model:
         pv = obj.fields.get("pyvalue")
         if not (isinstance(pv, Obj) and pv.cls.name == "_SENTINEL_UNINITIALISED"):
             return NotImplemented
+        # cost ghost: how often each received value is (lazily, uncached) decoded
+        if obj.fields["_wire"].ident & 0x20:      # constructed values: decoding them walks all their members
+            self.decode_counts[id(obj.fields["_wire"])] = self.decode_counts.get(id(obj.fields["_wire"]), 0) + 1
         return self.call_decode_raw(interp, obj.cls, obj.fields["_wire"].content)
 
     def h_seq_decode(self, interp, closure, args, kwargs):
